@@ -2,6 +2,7 @@
   C08, whole histories — `num_members()` is exact in every reachable state.
 -/
 import FocaModel.Proofs.MsInv
+import FocaModel.Proofs.Replay
 import FocaModel.Codec
 namespace Foca.C08H
 open Foca
@@ -36,5 +37,50 @@ example : ∃ s, Reachable exEnv s ∧ s.numActive = 1 ∧ s.ms.length = 1 := by
   refine ⟨_, Reachable.step (.applyMany [⟨⟨2, 0⟩, 0, .alive⟩] false) ⟨[.idx 0], []⟩ _ _ _
     (Reachable.init ⟨1, 0⟩ .none exCfg) rfl, ?_⟩
   decide
+
+/-- **One call.** From any reachable state, for any public call — any input, datagram bytes, timer, RNG; also when
+    the call returns an error — replaying the MemberUp / MemberDown / Rename notifications it emitted, in order, on
+    the set of identities active before the call gives exactly the set active after it. (`applyNote`: MemberUp
+    inserts, MemberDown removes, Rename(old, new) replaces `old` by `new` if `old` is in the set.) -/
+theorem notifications_replay_one_call (E : Env) {s : State} (h : Reachable E s) (op : Op) (orc : Oracle) :
+    match step E s op orc with
+    | .done s' eff _ _ => ∀ x, isActiveId s'.ms x = replay (isActiveId s.ms) (notes eff) x
+    | .stuck _ => True :=
+  notifications_replay E s op orc (MsInv.reachable E h).1
+
+/-- a history together with every notification it emitted, in order -/
+inductive ReachableWith (E : Env) : State → List Notif → Prop
+  | init (id : Id) (pol : Policy) (cfg : Config) : ReachableWith E (State.init id pol cfg) []
+  | step {s s' : State} {ns : List Notif} (op : Op) (orc : Oracle) (eff : List Effect) (r : Res) (left : Oracle) :
+      ReachableWith E s ns → Foca.step E s op orc = .done s' eff r left → ReachableWith E s' (ns ++ notes eff)
+
+theorem ReachableWith.reachable {E : Env} {s : State} {ns : List Notif} (h : ReachableWith E s ns) : Reachable E s := by
+  induction h with
+  | init id pol cfg => exact Reachable.init id pol cfg
+  | step op orc eff r left _ hstep ih => exact Reachable.step op orc eff r left ih hstep
+
+/-- **Whole histories.** After any history of public calls, replaying *all* the membership notifications emitted
+    since `Foca::new`, starting from the empty set, reconstructs exactly the set of active members
+    (`iter_members`), at every point of the history. -/
+theorem notifications_replay_whole_history (E : Env) {s : State} {ns : List Notif} (h : ReachableWith E s ns) :
+    ∀ x, isActiveId s.ms x = replay (fun _ => false) ns x := by
+  induction h with
+  | init id pol cfg => intro x; simp [State.init, isActiveId, replay]
+  | step op orc eff r left hprev hstep ih =>
+    have h1 := notifications_replay_one_call E hprev.reachable op orc
+    rw [hstep] at h1
+    intro x
+    rw [h1 x, replay_append]
+    have : isActiveId _ = replay (fun _ => false) _ := funext ih
+    rw [this]
+
+/-- non-vacuity: a member joins, then a newer identity of its address takes over — Up, then Rename -/
+example : ∃ s ns, ReachableWith exEnv s ns ∧ ns = [.up ⟨2, 0⟩, .active, .rename ⟨2, 0⟩ ⟨2, 1⟩] ∧
+    isActiveId s.ms ⟨2, 1⟩ = true := by
+  refine ⟨_, _, ReachableWith.step (.applyMany [⟨⟨2, 1⟩, 0, .alive⟩] false) ⟨[], []⟩ _ _ _
+    (ReachableWith.step (.applyMany [⟨⟨2, 0⟩, 0, .alive⟩] false) ⟨[.idx 0], []⟩ _ _ _
+      (ReachableWith.init ⟨1, 0⟩ .none exCfg) rfl) rfl, ?_, ?_⟩
+  · decide
+  · decide
 
 end Foca.C08H
